@@ -2,7 +2,7 @@
    Histories are ARBITRARY lists of operations on one compressor / decompressor instance; byte
    strings are arbitrary.  The third-party codec is ANY reader / writer object with a view
    function satisfying the contract of C20_Spec.v (lib_contract / wlib_contract). *)
-From V Require Import C20_Spec C20_Proofs C20_Names C20_Consts.
+From V Require Import C20_Spec C20_Proofs C20_Proofs2 C20_Names C20_Consts.
 Open Scope N_scope.
 
 (* Session independence, for each of the six encodings: whatever was done to the instance before
@@ -11,14 +11,14 @@ Open Scope N_scope.
    reader returns on s: the decoded bytes, or an error iff a fresh reader fails.  A bad message never
    makes a later message fail or decode differently. *)
 Theorem session_independent :
-  forall inst dec view l_zero l_new l_reset l_read l_close,
-  lib_contract inst dec view l_zero l_new l_reset l_read l_close ->
+  forall inst dec view l_zero l_new l_reset l_read l_readn l_close,
+  lib_contract inst dec view l_zero l_new l_reset l_read l_readn l_close ->
   forall k, kind_needs k dec view l_new l_reset ->
   forall h s,
-  no_crash (d_run inst l_new l_reset l_read l_close (d_init inst l_zero k) h) ->
+  no_crash (d_run inst l_new l_reset l_read l_readn l_close (d_init inst l_zero k) h) ->
   exists r,
-    d_run inst l_new l_reset l_read l_close (d_init inst l_zero k) (h ++ [DReset s; DRead None])
-    = d_run inst l_new l_reset l_read l_close (d_init inst l_zero k) h
+    d_run inst l_new l_reset l_read l_readn l_close (d_init inst l_zero k) (h ++ [DReset s; DRead None])
+    = d_run inst l_new l_reset l_read l_readn l_close (d_init inst l_zero k) h
       ++ [OU (reset_result k (dec_of k dec s)); OR r]
     /\ fresh_read (dec_of k dec s) r.
 Proof. exact session_independent_proof. Qed.
@@ -27,25 +27,25 @@ Print Assumptions session_independent.
 (* No decompressor panics on any history whose first operation is a Reset — malformed sources
    included, Close / Read after a failed Reset included. *)
 Theorem no_crash_after_reset :
-  forall inst dec view l_zero l_new l_reset l_read l_close,
-  lib_contract inst dec view l_zero l_new l_reset l_read l_close ->
+  forall inst dec view l_zero l_new l_reset l_read l_readn l_close,
+  lib_contract inst dec view l_zero l_new l_reset l_read l_readn l_close ->
   forall k, kind_needs k dec view l_new l_reset ->
   forall h, starts_with_reset h ->
-  no_crash (d_run inst l_new l_reset l_read l_close (d_init inst l_zero k) h).
+  no_crash (d_run inst l_new l_reset l_read l_readn l_close (d_init inst l_zero k) h).
 Proof. exact no_crash_proof. Qed.
 Print Assumptions no_crash_after_reset.
 
 (* ... in particular none that connect-go's pools produce (Reset, reads, Close, Reset(NoBody), ...) *)
 Theorem pool_no_crash :
-  forall inst dec view l_zero l_new l_reset l_read l_close,
-  lib_contract inst dec view l_zero l_new l_reset l_read l_close ->
+  forall inst dec view l_zero l_new l_reset l_read l_readn l_close,
+  lib_contract inst dec view l_zero l_new l_reset l_read l_readn l_close ->
   forall k, kind_needs k dec view l_new l_reset ->
   forall h, pool_history h ->
-  no_crash (d_run inst l_new l_reset l_read l_close (d_init inst l_zero k) h).
+  no_crash (d_run inst l_new l_reset l_read l_readn l_close (d_init inst l_zero k) h).
 Proof.
-  intros inst dec view l_zero l_new l_reset l_read l_close C k Hk h P.
+  intros inst dec view l_zero l_new l_reset l_read l_readn l_close C k Hk h P.
   destruct (pool_starts_with_reset h P) as [->|S]; [intros o []|].
-  exact (no_crash_proof inst dec view l_zero l_new l_reset l_read l_close C k Hk h S).
+  exact (no_crash_proof inst dec view l_zero l_new l_reset l_read l_readn l_close C k Hk h S).
 Qed.
 Print Assumptions pool_no_crash.
 
@@ -75,22 +75,22 @@ Print Assumptions compress_no_crash.
    compressor history, fed to a decompressor that went through ANY history (neither panicked), decodes
    to what was written — for every byte string, the empty one included, for each of the six encodings. *)
 Theorem round_trip :
-  forall inst dec view l_zero l_new l_reset l_read l_close winst wv w_zero w_reset w_write w_close,
-  lib_contract inst dec view l_zero l_new l_reset l_read l_close ->
+  forall inst dec view l_zero l_new l_reset l_read l_readn l_close winst wv w_zero w_reset w_write w_close,
+  lib_contract inst dec view l_zero l_new l_reset l_read l_readn l_close ->
   wlib_contract dec winst wv w_reset w_write w_close ->
   forall k, kind_needs k dec view l_new l_reset ->
   forall hc ws hd, Forall is_write ws ->
   (forall u, In u (fst (c_run winst w_reset w_write w_close (c_init winst w_zero k) [] hc)) -> u <> UCrash) ->
-  no_crash (d_run inst l_new l_reset l_read l_close (d_init inst l_zero k) hd) ->
+  no_crash (d_run inst l_new l_reset l_read l_readn l_close (d_init inst l_zero k) hd) ->
   let c := last (snd (c_run winst w_reset w_write w_close (c_init winst w_zero k) [] (hc ++ CReset :: ws ++ [CClose]))) [] in
-  d_run inst l_new l_reset l_read l_close (d_init inst l_zero k) (hd ++ [DReset c; DRead None])
-  = d_run inst l_new l_reset l_read l_close (d_init inst l_zero k) hd ++ [OU UOk; OR (ROk (written ws))].
+  d_run inst l_new l_reset l_read l_readn l_close (d_init inst l_zero k) (hd ++ [DReset c; DRead None])
+  = d_run inst l_new l_reset l_read l_readn l_close (d_init inst l_zero k) hd ++ [OU UOk; OR (ROk (written ws))].
 Proof.
-  intros inst dec view l_zero l_new l_reset l_read l_close winst wv w_zero w_reset w_write w_close
+  intros inst dec view l_zero l_new l_reset l_read l_readn l_close winst wv w_zero w_reset w_write w_close
          C W k Hk hc ws hd F NCc NCd c.
   destruct (compress_session_proof winst dec wv w_zero w_reset w_write w_close W k ws hc F NCc) as (_ & D).
   fold c in D.
-  destruct (session_independent_proof inst dec view l_zero l_new l_reset l_read l_close C k Hk hd c NCd)
+  destruct (session_independent_proof inst dec view l_zero l_new l_reset l_read l_readn l_close C k Hk hd c NCd)
     as (r & E & FR).
   rewrite D in E, FR. simpl in FR. subst r. exact E.
 Qed.
@@ -98,22 +98,142 @@ Print Assumptions round_trip.
 
 (* ... spelled out for "right after the same instance failed on malformed input": *)
 Theorem bad_then_good :
-  forall inst dec view l_zero l_new l_reset l_read l_close,
-  lib_contract inst dec view l_zero l_new l_reset l_read l_close ->
+  forall inst dec view l_zero l_new l_reset l_read l_readn l_close,
+  lib_contract inst dec view l_zero l_new l_reset l_read l_readn l_close ->
   forall k, kind_needs k dec view l_new l_reset ->
   forall h bad good x,
-  no_crash (d_run inst l_new l_reset l_read l_close (d_init inst l_zero k) (h ++ [DReset bad; DRead None])) ->
+  no_crash (d_run inst l_new l_reset l_read l_readn l_close (d_init inst l_zero k) (h ++ [DReset bad; DRead None])) ->
   dec_of k dec good = Body x false ->
-  d_run inst l_new l_reset l_read l_close (d_init inst l_zero k) ((h ++ [DReset bad; DRead None]) ++ [DReset good; DRead None])
-  = d_run inst l_new l_reset l_read l_close (d_init inst l_zero k) (h ++ [DReset bad; DRead None])
+  d_run inst l_new l_reset l_read l_readn l_close (d_init inst l_zero k) ((h ++ [DReset bad; DRead None]) ++ [DReset good; DRead None])
+  = d_run inst l_new l_reset l_read l_readn l_close (d_init inst l_zero k) (h ++ [DReset bad; DRead None])
     ++ [OU UOk; OR (ROk x)].
 Proof.
-  intros inst dec view l_zero l_new l_reset l_read l_close C k Hk h bad good x NC D.
-  destruct (session_independent_proof inst dec view l_zero l_new l_reset l_read l_close C k Hk _ good NC)
+  intros inst dec view l_zero l_new l_reset l_read l_readn l_close C k Hk h bad good x NC D.
+  destruct (session_independent_proof inst dec view l_zero l_new l_reset l_read l_readn l_close C k Hk _ good NC)
     as (r & E & FR).
   rewrite D in E, FR. simpl in FR. subst r. exact E.
 Qed.
 Print Assumptions bad_then_good.
+
+(* (a) Close after a session on a source that decodes returns ok — the pool gets its instance back — after ANY
+   earlier history, whatever reads (read loops, limited loops, single Read calls of any size, none at all)
+   were made in between; none of those reads reports an error. *)
+Theorem close_after_session :
+  forall inst dec view l_zero l_new l_reset l_read l_readn l_close,
+  lib_contract inst dec view l_zero l_new l_reset l_read l_readn l_close ->
+  forall k, kind_needs k dec view l_new l_reset ->
+  forall h s rs y,
+  no_crash (d_run inst l_new l_reset l_read l_readn l_close (d_init inst l_zero k) h) ->
+  dec_of k dec s = Body y false -> Forall is_read rs ->
+  exists outs,
+    length outs = length rs /\ Forall read_fine outs /\
+    d_run inst l_new l_reset l_read l_readn l_close (d_init inst l_zero k) (h ++ DReset s :: rs ++ [DClose])
+    = d_run inst l_new l_reset l_read l_readn l_close (d_init inst l_zero k) h ++ OU UOk :: outs ++ [OU UOk].
+Proof.
+  intros inst dec view l_zero l_new l_reset l_read l_readn l_close C k Hk h s rs y NC D F.
+  destruct (session_in_pieces_proof inst dec view l_zero l_new l_reset l_read l_readn l_close C k Hk h s rs y NC D F)
+    as (outs & rest & R1 & _ & R3 & R4 & _).
+  exists outs. repeat split; assumption.
+Qed.
+Print Assumptions close_after_session.
+
+(* (b) Reads in pieces concatenate to what a fresh reader decodes: after ANY earlier history, for ANY list of
+   read operations after Reset s — single Read(p) calls with buffers of any size (0 and 1 included), limited
+   and unlimited read loops, in any order — and for ANY way the library cuts its output into the single reads
+   (lc_readn: some prefix, possibly empty, at most len(p) bytes; io.EOF with the last bytes or with a later
+   empty read): no read reports an error, the bytes delivered are, in order, a prefix of the decoded bytes
+   (nothing lost, duplicated or reordered); once io.EOF was reported, or an unlimited read loop was among
+   the reads, they are exactly the decoded bytes. *)
+Theorem reads_concatenate :
+  forall inst dec view l_zero l_new l_reset l_read l_readn l_close,
+  lib_contract inst dec view l_zero l_new l_reset l_read l_readn l_close ->
+  forall k, kind_needs k dec view l_new l_reset ->
+  forall h s rs y,
+  no_crash (d_run inst l_new l_reset l_read l_readn l_close (d_init inst l_zero k) h) ->
+  dec_of k dec s = Body y false -> Forall is_read rs ->
+  exists outs rest,
+    d_run inst l_new l_reset l_read l_readn l_close (d_init inst l_zero k) (h ++ DReset s :: rs)
+    = d_run inst l_new l_reset l_read l_readn l_close (d_init inst l_zero k) h ++ OU UOk :: outs /\
+    length outs = length rs /\ Forall read_fine outs /\
+    y = delivered outs ++ rest /\
+    (eof_seen outs -> rest = []) /\ (In (DRead None) rs -> rest = []).
+Proof.
+  intros inst dec view l_zero l_new l_reset l_read l_readn l_close C k Hk h s rs y NC D F.
+  destruct (session_in_pieces_proof inst dec view l_zero l_new l_reset l_read l_readn l_close C k Hk h s rs y NC D F)
+    as (outs & rest & _ & R2 & R3 & R4 & R5 & R6 & R7).
+  exists outs, rest. repeat split; assumption.
+Qed.
+Print Assumptions reads_concatenate.
+
+(* ... and a loop of single reads into non-empty buffers ends: with a library that makes progress (lib_progress:
+   a read into a non-empty buffer delivers at least one byte while bytes are to come, and io.EOF once none are —
+   io.Reader only discourages the opposite, so this is a separate hypothesis), more reads than decoded bytes
+   always reach io.EOF, and what they delivered is exactly the decoded bytes. *)
+Theorem read_loop_terminates :
+  forall inst dec view l_zero l_new l_reset l_read l_readn l_close,
+  lib_contract inst dec view l_zero l_new l_reset l_read l_readn l_close ->
+  lib_progress inst view l_readn ->
+  forall k, kind_needs k dec view l_new l_reset ->
+  forall h s ns y,
+  no_crash (d_run inst l_new l_reset l_read l_readn l_close (d_init inst l_zero k) h) ->
+  dec_of k dec s = Body y false ->
+  Forall (fun n => 0 < n) ns -> (length y < length ns)%nat ->
+  exists outs,
+    d_run inst l_new l_reset l_read l_readn l_close (d_init inst l_zero k) (h ++ DReset s :: map DReadN ns)
+    = d_run inst l_new l_reset l_read l_readn l_close (d_init inst l_zero k) h ++ OU UOk :: outs /\
+    Forall read_fine outs /\ eof_seen outs /\ delivered outs = y.
+Proof.
+  intros inst dec view l_zero l_new l_reset l_read l_readn l_close C PR k Hk.
+  exact (read_loop_terminates_proof inst dec view l_zero l_new l_reset l_read l_readn l_close C PR k Hk).
+Qed.
+Print Assumptions read_loop_terminates.
+
+(* (c) The projected outcomes (C20_Model.observe: what the differential run compares — every Reset in full, reads
+   and Close of an instance positioned on a source of known class as "delivered what was to come" / ok / error,
+   everything else as panicked / did not) do not depend on the library: for ANY two libraries satisfying the
+   contract for the same format `dec`, and ANY history, the wrappers over them are projected alike.  The contract
+   leaves open whether an object that never had a source panics when read or closed, and a panic is observable
+   (ex_nosrc_matters), so for histories that do not begin with a Reset the two libraries must agree on that
+   (nosrc_alike) ... *)
+Theorem library_independent :
+  forall dec
+         inst1 view1 zero1 new1 reset1 read1 readn1 close1
+         inst2 view2 zero2 new2 reset2 read2 readn2 close2,
+  lib_contract inst1 dec view1 zero1 new1 reset1 read1 readn1 close1 ->
+  lib_contract inst2 dec view2 zero2 new2 reset2 read2 readn2 close2 ->
+  forall k, kind_needs k dec view1 new1 reset1 -> kind_needs k dec view2 new2 reset2 ->
+  nosrc_alike view1 read1 readn1 close1 view2 read2 readn2 close2 ->
+  forall h,
+  observe (dec_of k dec) (DFresh, []) h (d_run inst1 new1 reset1 read1 readn1 close1 (d_init inst1 zero1 k) h)
+  = observe (dec_of k dec) (DFresh, []) h (d_run inst2 new2 reset2 read2 readn2 close2 (d_init inst2 zero2 k) h).
+Proof.
+  intros dec inst1 view1 zero1 new1 reset1 read1 readn1 close1 inst2 view2 zero2 new2 reset2 read2 readn2 close2 C1 C2 k.
+  exact (library_independent_proof dec inst1 view1 zero1 new1 reset1 read1 readn1 close1 C1
+                                   inst2 view2 zero2 new2 reset2 read2 readn2 close2 C2 k).
+Qed.
+Print Assumptions library_independent.
+
+(* ... and for the histories whose first operation is a Reset — all that connect-go's pools produce — nothing
+   beyond the contract is asked. *)
+Theorem library_independent_pool :
+  forall dec
+         inst1 view1 zero1 new1 reset1 read1 readn1 close1
+         inst2 view2 zero2 new2 reset2 read2 readn2 close2,
+  lib_contract inst1 dec view1 zero1 new1 reset1 read1 readn1 close1 ->
+  lib_contract inst2 dec view2 zero2 new2 reset2 read2 readn2 close2 ->
+  forall k, kind_needs k dec view1 new1 reset1 -> kind_needs k dec view2 new2 reset2 ->
+  forall h, starts_with_reset h \/ (h <> [] /\ pool_history h) ->
+  observe (dec_of k dec) (DFresh, []) h (d_run inst1 new1 reset1 read1 readn1 close1 (d_init inst1 zero1 k) h)
+  = observe (dec_of k dec) (DFresh, []) h (d_run inst2 new2 reset2 read2 readn2 close2 (d_init inst2 zero2 k) h).
+Proof.
+  intros dec inst1 view1 zero1 new1 reset1 read1 readn1 close1 inst2 view2 zero2 new2 reset2 read2 readn2 close2
+         C1 C2 k Hk1 Hk2 h Hh.
+  apply (library_independent_reset_first_proof dec inst1 view1 zero1 new1 reset1 read1 readn1 close1 C1
+                                                inst2 view2 zero2 new2 reset2 read2 readn2 close2 C2 k Hk1 Hk2).
+  destruct Hh as [S|(NE & P)]; [exact S|].
+  destruct (pool_starts_with_reset h P) as [->|S]; [congruence|exact S].
+Qed.
+Print Assumptions library_independent_pool.
 
 (* The name tables of the five places, REGENERATED from the compiled code into C20_Consts.v on every run:
    every (name, algorithm) pair that any place asserts is the registered one ... *)
@@ -137,9 +257,12 @@ Print Assumptions model_tables_are_the_codes.
 
 (* ---- the hypotheses are inhabited: the stand-in codec used for extraction satisfies the contract ---- *)
 Example contract_inhabited :
-  forall loud closed_ok,
-  lib_contract lview toy_dec (fun v => v) NoSrc toy_new (toy_reset closed_ok) (toy_read loud) toy_close.
+  forall loud eager closed_ok,
+  lib_contract lview toy_dec (fun v => v) NoSrc toy_new (toy_reset closed_ok) (toy_read loud)
+               (toy_readn loud eager) toy_close.
 Proof. exact toy_contract. Qed.
+Example progress_inhabited : forall loud eager, lib_progress lview (fun v => v) (toy_readn loud eager).
+Proof. exact toy_progress. Qed.
 Example wcontract_inhabited : wlib_contract toy_dec wview toy_wv toy_wreset toy_wwrite toy_wclose.
 Proof. exact toy_wcontract. Qed.
 Example needs_inhabited : forall k, kind_needs k toy_dec (fun v : lview => v) toy_new (toy_reset (kind_closed_ok k)).
@@ -147,7 +270,8 @@ Proof. exact toy_needs. Qed.
 
 (* ---- non-vacuity / necessity of premises ---- *)
 Definition x := bs "hello".
-Definition trun k := d_run lview toy_new (toy_reset (kind_closed_ok k)) (toy_read (kind_loud k)) toy_close (toy_d_init k).
+Definition trun k := d_run lview toy_new (toy_reset (kind_closed_ok k)) (toy_read (kind_loud k))
+                            (toy_readn (kind_loud k) (kind_eager k)) toy_close (toy_d_init k).
 (* zstd: reuse after Close re-creates the decoder *)
 Example ex_zstd_reuse_after_close :
   trun KZstd [DReset (toy_enc x); DRead None; DClose; DRead None; DReset (toy_enc x); DRead None]
@@ -186,3 +310,39 @@ Example ex_compress :
 Proof. vm_compute. reflexivity. Qed.
 Example ex_names : In (bs "br", 3%Z) all_pairs /\ In (bs "zstd", 4%Z) pairs_tracer /\ tracer_alg (bs "X-Gzip") = 0%Z.
 Proof. vm_compute. intuition. Qed.
+
+(* ---- reading in pieces on the stand-in: zero-length and one-byte reads, io.EOF with the last bytes
+   (brotli stand-in: eager) and after them (gzip stand-in) ---- *)
+Example ex_pieces_eof_after :
+  trun KGzip [DReset (toy_enc [7; 8; 9]); DReadN 0; DReadN 1; DReadN 5; DReadN 5; DClose]
+  = [OU UOk; OP (PRes [] SNil); OP (PRes [7] SNil); OP (PRes [8; 9] SNil); OP (PRes [] SEof); OU UOk].
+Proof. vm_compute. reflexivity. Qed.
+Example ex_pieces_eof_with :
+  trun KBrotli [DReset (toy_enc [7; 8; 9]); DReadN 1; DRead (Some 1); DReadN 1; DReadN 1; DClose]
+  = [OU UOk; OP (PRes [7] SNil); OR (ROk [8]); OP (PRes [9] SEof); OP (PRes [] SEof); OU UOk].
+Proof. vm_compute. reflexivity. Qed.
+(* the wrappers with a nil check answer (0, io.EOF) after Close (zstd) *)
+Example ex_zstd_readn_after_close :
+  trun KZstd [DReset (toy_enc x); DClose; DReadN 4] = [OU UOk; OU UOk; OP (PRes [] SEof)].
+Proof. vm_compute. reflexivity. Qed.
+(* nosrc_alike is inhabited (the stand-in with itself) and needed: two stand-ins that differ only in what
+   a read on an object without a source does are both lawful and are told apart by [Read] before any Reset *)
+Example nosrc_alike_inhabited :
+  forall loud eager, nosrc_alike (fun v : lview => v) (toy_read loud) (toy_readn loud eager) toy_close
+                                 (fun v : lview => v) (toy_read loud) (toy_readn loud eager) toy_close.
+Proof. intros loud eager i1 i2 -> ->. simpl. repeat split; intros; tauto. Qed.
+Example ex_nosrc_matters :
+  observe (dec_of KSnappy toy_dec) (DFresh, []) [DRead None]
+          (d_run lview toy_new (toy_reset true) (toy_read true) (toy_readn true false) toy_close (toy_d_init KSnappy) [DRead None])
+  = [PPanic] /\
+  observe (dec_of KSnappy toy_dec) (DFresh, []) [DRead None]
+          (d_run lview toy_new (toy_reset true) (toy_read false) (toy_readn false false) toy_close (toy_d_init KSnappy) [DRead None])
+  = [PAny].
+Proof. vm_compute. auto. Qed.
+(* the projection on a bad-then-good history *)
+Example ex_observe :
+  observe (dec_of KGzip toy_dec) (DFresh, [])
+          [DClose; DReset [0]; DRead None; DReset (2 :: x); DReadN 2; DRead None; DReset (toy_enc x); DReadN 2; DRead None; DClose]
+          (trun KGzip [DClose; DReset [0]; DRead None; DReset (2 :: x); DReadN 2; DRead None; DReset (toy_enc x); DReadN 2; DRead None; DClose])
+  = [PAny; PFullU UErr; PAny; PFullU UOk; PAny; PAny; PFullU UOk; PFlag true; PFlag true; PFullU UOk].
+Proof. vm_compute. reflexivity. Qed.
